@@ -6,6 +6,31 @@ From Coquelicot Require Import Coquelicot.
 From RV Require Import Base.RB Gen.GenC09Trunc Model.LevyClosedForms.
 Open Scope R_scope.
 
+(* real-valued versions of Coquelicot lemmas (so that ring/field see ordinary R goals) and small tactics *)
+Lemma is_RInt_ext_R (f g : R -> R) a b l :
+  (forall x, Rmin a b < x < Rmax a b -> f x = g x) -> is_RInt f a b l -> is_RInt g a b l.
+Proof. exact (@is_RInt_ext R_NormedModule f g a b l). Qed.
+Lemma chasles_R (f : R -> R) a b c l1 l2 : is_RInt f a b l1 -> is_RInt f b c l2 -> is_RInt f a c (l1 + l2).
+Proof. exact (is_RInt_Chasles f a b c l1 l2). Qed.
+Lemma is_RInt_derive_R (f df : R -> R) a b :
+  (forall x, Rmin a b <= x <= Rmax a b -> is_derive f x (df x)) ->
+  (forall x, Rmin a b <= x <= Rmax a b -> continuous df x) -> is_RInt df a b (f b - f a).
+Proof. exact (is_RInt_derive f df a b). Qed.
+Lemma Reqb_ne x y : x <> y -> Reqb x y = false.
+Proof. intros H. unfold Reqb. destruct (Req_EM_T x y); [contradiction | reflexivity]. Qed.
+Lemma Reqb_same x : Reqb x x = true.
+Proof. unfold Reqb. destruct (Req_EM_T x x); [reflexivity | contradiction]. Qed.
+Ltac cont := apply (@ex_derive_continuous R_AbsRing R_NormedModule); auto_derive; auto.
+Ltac rb :=
+  repeat match goal with
+  | |- context [Rltb ?x ?y] =>
+      first [ replace (Rltb x y) with true by (symmetry; apply Rltb_true; lra)
+            | replace (Rltb x y) with false by (symmetry; apply Rltb_false; lra) ]
+  | |- context [Rleb ?x ?y] =>
+      first [ replace (Rleb x y) with true by (symmetry; apply Rleb_true; lra)
+            | replace (Rleb x y) with false by (symmetry; apply Rleb_false; lra) ]
+  end.
+
 Section Generic.
 Variable f : R -> R.               (* x^n * nu x *)
 Variable F : R -> R -> R.          (* the closed form *)
